@@ -288,6 +288,12 @@ class Extract:
             return [], self.seq(paths, self.assign(st, fr))
         if isinstance(st, ast.AugAssign):
             return [], self.seq(paths, self.augassign(st, fr))
+        if isinstance(st, ast.FunctionDef):
+            # a nested helper that never mentions `self` (nor declares global / nonlocal) cannot touch the tracked state by being defined;
+            # calling it with plain numbers (see reads) returns a value only
+            if any((isinstance(n, ast.Name) and n.id == 'self') or isinstance(n, (ast.Global, ast.Nonlocal)) for n in ast.walk(st)):
+                raise Untranslatable(f'nested function {st.name} refers to self')
+            return [], paths
         if isinstance(st, (ast.For, ast.While, ast.With, ast.Try)):
             if self.has_tracked(st):
                 raise Untranslatable(f'{type(st).__name__} statement touching tracked state')
@@ -749,7 +755,8 @@ def generate(repo):
             raise Untranslatable('data is not cut by `self.data[<name>, <name>]`')
         names = [e.id for e in sub.elts]
 
-        def bounds(call, axis_len):
+        def bounds(call, axis_len, tr_=None):
+            tr_ = tr_ or tr
             if not (isinstance(call, ast.Call) and ast.unparse(call.func) == 'slice' and not call.keywords and 1 <= len(call.args) <= 2):
                 raise Untranslatable(f'not a slice(a, b): {ast.unparse(call)[:40]}')
             args = call.args if len(call.args) == 2 else [ast.Constant(value=None), call.args[0]]
@@ -757,12 +764,41 @@ def generate(repo):
             def one(a, default):
                 if isinstance(a, ast.Constant) and a.value is None:
                     return default
-                return f'(normIdx {axis_len} {tr.expr(a)})'
+                return f'(normIdx {axis_len} {tr_.expr(a)})'
             return one(args[0], '(0 : Int)'), one(args[1], axis_len)
+
+        nested = {n.name: n for n in fn.body if isinstance(n, ast.FunctionDef)}
+
+        def returns(stmts, tr_, axis_len):
+            """(lo, hi) of a helper body made of `if c: return slice(..)` / `elif` / `else` / a final `return slice(..)`"""
+            for k, st in enumerate(stmts):
+                if isinstance(st, ast.Expr) and isinstance(st.value, ast.Constant):
+                    continue
+                if isinstance(st, ast.Return) and st.value is not None:
+                    return bounds(st.value, axis_len, tr_)
+                if isinstance(st, ast.If):
+                    c = tr_.cond(st.test)
+                    lo1, hi1 = returns(st.body, tr_, axis_len)
+                    lo2, hi2 = returns(st.orelse if st.orelse else stmts[k + 1:], tr_, axis_len)
+                    return f'(if {c} then {lo1} else {lo2})', f'(if {c} then {hi1} else {hi2})'
+                raise Untranslatable(f'statement in nested helper: {ast.unparse(st)[:40]}')
+            raise Untranslatable('nested helper falls off its end')
 
         def chain(node_list, name, axis_len):
             """Lean (lo, hi) terms for the if/elif chain assigning `name`"""
             for st in node_list:
+                if isinstance(st, ast.Assign) and len(st.targets) == 1 and isinstance(st.targets[0], ast.Name) \
+                        and st.targets[0].id == name and isinstance(st.value, ast.Call) and isinstance(st.value.func, ast.Name) \
+                        and st.value.func.id in nested and not st.value.keywords:
+                    h = nested[st.value.func.id]
+                    params = [a.arg for a in h.args.args]
+                    if len(params) != len(st.value.args) or h.args.vararg or h.args.kwarg or h.args.defaults:
+                        raise Untranslatable('nested helper call does not bind its parameters positionally')
+                    for n_ in ast.walk(h):
+                        if isinstance(n_, (ast.Assign, ast.AugAssign)):
+                            raise Untranslatable('nested helper assigns locals')
+                    env2 = {p_: '(' + tr.expr(a_) + ')' for p_, a_ in zip(params, st.value.args)}
+                    return returns(h.body, Tr(env2), axis_len)
                 if isinstance(st, ast.Assign) and len(st.targets) == 1 and isinstance(st.targets[0], ast.Name) \
                         and st.targets[0].id == name:
                     return bounds(st.value, axis_len)
@@ -854,7 +890,7 @@ def generate(repo):
 
         early = None
         for st in fn.body:
-            if isinstance(st, ast.Expr):
+            if isinstance(st, ast.Expr) or isinstance(st, ast.FunctionDef):
                 continue
             if isinstance(st, ast.Assign) and len(st.targets) == 1:
                 t = st.targets[0]
